@@ -5,10 +5,9 @@ CONSTANTS
   Frag = FALSE
   HoldMutex = TRUE
   CloseC = TRUE
-  Tampers = 0
+  Tampers = 1
   Recheck = TRUE
-INIT MCInit
-NEXT MCNext
-VIEW View
-INVARIANTS PrefixOK NoFramingLoss CloseNoTrunc NeverBroken DumpHist
+INIT Init
+NEXT Next
+INVARIANTS PrefixOK
 CHECK_DEADLOCK FALSE
